@@ -705,7 +705,8 @@ macro_rules! declare_storage_n {
 
                 #[inline(always)]
                 fn resolve_direct(&self, entity: EntityDirect<A>) -> Option<EntityDirect<A>> {
-                    Some(entity) // Trivially return, as we're already an EntityDirect
+                    // We're already an EntityDirect, but we still need to be a valid one
+                    self.resolve_direct(entity).map(|_| entity)
                 }
 
                 #[inline]
